@@ -218,7 +218,7 @@ def conversion_factor(hed_schema, tag_entry, attribute_name):
         cf = float(cf.replace("^", "e"))
     except (ValueError, AttributeError):
         pass
-    if not isinstance(cf, float) or cf <= 0.0:
+    if not isinstance(cf, float) or not cf > 0.0:  # 'not >' so that NaN is reported as well
         issues += ErrorHandler.format_error(SchemaAttributeErrors.SCHEMA_CONVERSION_FACTOR_NOT_POSITIVE,
                                             tag_entry.name,
                                             cf)
